@@ -88,6 +88,11 @@ func genC40(g *Gen) {
 			g.Count("case:table")
 		}
 		nm := g.R.Range(1, 2)
+		tiny := node && i%4 == 3 // node cases with a tiny stream cache: admission at capacity, eviction, backpressure
+		if tiny {
+			nm = g.R.Range(2, 4)
+			g.Count("case:node-tiny-cache")
+		}
 		msgs := make([]*c40Msg, nm)
 		for m := range msgs {
 			msgs[m] = &c40Msg{ch: []string{"g1", "room", "u1@u2", "c"}[g.R.Intn(4)], ct: int64(g.R.Range(1, 3)), no: fmt.Sprintf("m%d", m)}
@@ -184,7 +189,46 @@ func genC40(g *Gen) {
 			g.Op("rt", "%d %d %s", l1, l2, string(own))
 		}
 		nops := g.R.Range(15, 60)
+		if tiny {
+			g.Op("cap", "%d", g.R.Range(1, 3))
+		}
+		// ids of cache-only events sent per message and lane (for retries of an older delta on another lane)
+		type sent struct{ id, key string }
+		cacheSent := map[*c40Msg][]sent{}
+		plain := func(m *c40Msg, id, key string, ty int, payload string) string {
+			return fmt.Sprintf("%s %d %s %s %s %s - %d %s %d", Hex([]byte(m.ch)), m.ct, Hex([]byte(m.no)), Hex([]byte(id)), Hex([]byte(key)),
+				Hex([]byte(c40TypeNames[ty])), g.R.Intn(1000), payload, g.R.Intn(1000))
+		}
 		for n := 0; n < nops; n++ {
+			if node && g.R.Chance(12) {
+				// multi-lane stream: deltas on two lanes, a terminal event on one, a retried older delta id on the other
+				m := msgs[g.R.Intn(nm)]
+				ka, kb := "a", "b"
+				nextID++
+				ia := fmt.Sprintf("e%d", nextID)
+				nextID++
+				ib := fmt.Sprintf("e%d", nextID)
+				nextID++
+				ic := fmt.Sprintf("e%d", nextID)
+				m.ids = append(m.ids, ia, ib, ic)
+				g.Op("nd", "%s", plain(m, ia, ka, 1, "d"+Hex([]byte(c40Word(g, 2)))))
+				g.Op("nd", "%s", plain(m, ib, kb, 1, "d"+Hex([]byte(c40Word(g, 2)))))
+				cacheSent[m] = append(cacheSent[m], sent{ia, ka}, sent{ib, kb})
+				g.Op("nd", "%s", plain(m, ic, ka, []int{2, 3, 4}[g.R.Intn(3)], "-"))
+				if g.R.Chance(60) {
+					// another stream arrives (at capacity in tiny-cache cases)
+					o := msgs[g.R.Intn(nm)]
+					nextID++
+					g.Op("nd", "%s", plain(o, fmt.Sprintf("e%d", nextID), "a", 1, "d"+Hex([]byte(c40Word(g, 1)))))
+				}
+				g.Op("nd", "%s", plain(m, ib, kb, 1, "d"+Hex([]byte(c40Word(g, 2))))) // retry of the older id
+				nextID++
+				g.Op("nd", "%s", plain(m, fmt.Sprintf("e%d", nextID), kb, 1, "d"+Hex([]byte(c40Word(g, 1)))))
+				nextID++
+				g.Op("nd", "%s", plain(m, fmt.Sprintf("e%d", nextID), "", 6, "-"))
+				g.Count("shape:multi-lane-close-retry-finish")
+				continue
+			}
 			m := msgs[g.R.Intn(nm)]
 			if node {
 				switch g.R.Pick(74, 3, 8, 6, 9) {
